@@ -49,7 +49,8 @@ Record ostep := mkStep {
   s_out : out;                  (* what the call returned *)
   s_avail : Z;                  (* Available() afterwards *)
   s_ravail : Z;                 (* Available() of a second allocator opened on the same bytes; -1 = NewBlocks failed *)
-  s_rset : option (list Z)      (* allocated indices recovered from an allocator opened on a copy of the bytes *)
+  s_rset : option (list (Z * Z)) (* allocated indices recovered from an allocator opened on a copy of the bytes,
+                                    as ascending maximal ranges (first, last) *)
 }.
 
 (* a block read back at the end through Block(idx) *)
@@ -69,8 +70,11 @@ Record conccase := mkConc {
   k_held : list (list Z);       (* per goroutine: indices it holds at the end *)
   k_arranged : Z; k_freed : Z;  (* successful ArrangeBlock / FreeBlock calls in total *)
   k_avail : Z;                  (* Available() at the end *)
-  k_ravail : Z; k_rset : list Z (* reopened on the final bytes *)
+  k_ravail : Z; k_rset : list (Z * Z) (* reopened on the final bytes (ranges) *)
 }.
+
+(* short alias used by the generated case files *)
+Definition st := mkStep.
 
 Inductive case := CSeq (id : N) (c : seqcase) | CConc (id : N) (c : conccase).
 
@@ -104,18 +108,27 @@ Fixpoint seg_scan (n : nat) (buf : buffer) (bs : Z) (s : Z) : list Z :=
 Definition alloc_scan (b : blocks) : list Z :=
   seg_scan (Z.to_nat (segments b)) (bts b) (blkSize b) 0.
 
-Fixpoint ascending (lo : Z) (l : list Z) : bool :=
+(* an ascending list as maximal ranges (first, last) *)
+Fixpoint ranges_of (l : list Z) : list (Z * Z) :=
   match l with
-  | [] => true
-  | x :: t => (lo <=? x) && ascending (x + 1) t
+  | [] => []
+  | x :: t =>
+      match ranges_of t with
+      | (lo, hi) :: r => if lo =? x + 1 then (x, hi) :: r else (x, x) :: (lo, hi) :: r
+      | [] => [(x, x)]
+      end
+  end.
+
+Fixpoint ranges_eqb (a b : list (Z * Z)) : bool :=
+  match a, b with
+  | [], [] => true
+  | (x, y) :: s, (x', y') :: t => (x =? x') && (y =? y') && ranges_eqb s t
+  | _, _ => false
   end.
 
 (* does the recovered set agree with the headers of the model's bytes? *)
-Definition rset_matches (b : blocks) (l : list Z) : bool :=
-  if blocks_count b <=? 600 then zlist_eqb l (alloc_list b)
-  else
-    ascending 0 l && forallb (fun i => (i <? blocks_count b) && is_alloc b i) l
-    && (blocks_count b - available b =? Z.of_nat (length l)).
+Definition rset_matches (b : blocks) (r : list (Z * Z)) : bool :=
+  ranges_eqb r (ranges_of (if blocks_count b <=? 600 then alloc_list b else alloc_scan b)).
 
 Fixpoint check_steps (page : Z) (fit : bool) (b : blocks) (sp : aspec) (l : list ostep) : bool * blocks :=
   match l with
@@ -127,7 +140,7 @@ Fixpoint check_steps (page : Z) (fit : bool) (b : blocks) (sp : aspec) (l : list
          && (available b' =? s_avail s) && (s_ravail s =? available b')
          && match s_rset s with
             | None => true
-            | Some r => zlist_eqb r (sp_alloc sp') && rset_matches b' r
+            | Some r => ranges_eqb r (ranges_of (sp_alloc sp')) && rset_matches b' r
             end
       then check_steps page fit b' sp' t
       else (false, b')
@@ -164,7 +177,7 @@ Definition check_conc (c : conccase) : bool :=
       && (k_arranged c - k_freed c =? Z.of_nat (length all))
       && (k_avail c =? k_count c - Z.of_nat (length all))
       && (k_ravail c =? k_avail c)
-      && zlist_eqb (k_rset c) set
+      && ranges_eqb (k_rset c) (ranges_of set)
   | _ => false
   end.
 
